@@ -50,6 +50,7 @@ type Frame struct {
 	contract     *FuncContract
 	parent       *Frame
 	pendingFree  map[string]Binding // captured variables of the function literal whose contract is being applied
+	anchorArgs   []Term             // arguments of the call whose "before call" anchor is being fired ($a0, $a1, ...)
 	firedAnchors map[int]bool       // indices of contract.Asserts whose anchor was reached
 	pkg          string
 	entrySt      *State
